@@ -128,11 +128,11 @@ def main():
         "engines": [
             {"name": "E1-history-simulator", "path": "/verif/sim/e1", "serves_properties": [p for p in CLAIMED if CLAIMED[p]["engine"].startswith("E1")],
              "kind_free_text": "seeded operation histories with restarts through the real public API over the simulated disk, compared with an executable reference model"},
-            {"name": "E3-structure-simulator", "path": "/verif/sim/e3", "serves_properties": [p for p in CLAIMED if CLAIMED[p]["engine"].startswith("E3")],
+            {"name": "E3-structure-simulator", "path": "/verif/sim/e3", "serves_properties": [p for p in CLAIMED if CLAIMED[p]["engine"].startswith("E3")] + ["C19"],
              "kind_free_text": "the writable B-tree v2 and fractal heap (real code) driven through their exported API over the simulated disk, with write-out/load-back restarts and randomised tuning knobs, against map / byte-store models"},
             {"name": "E4-schedule-simulator", "path": "/verif/sim/e4", "serves_properties": [p for p in CLAIMED if CLAIMED[p]["engine"].startswith("E4")],
              "kind_free_text": "testing/synctest bubbles in a -race test binary; caller goroutines and the library's background goroutines serialised by seeded fake-clock delays at yield points; race reports, liveness and leak checks"},
-            {"name": "E2-fault-simulator", "path": "/verif/sim/e2", "serves_properties": [p for p in CLAIMED if CLAIMED[p]["engine"].startswith("E2")],
+            {"name": "E2-fault-simulator", "path": "/verif/sim/e2", "serves_properties": [p for p in CLAIMED if CLAIMED[p]["engine"].startswith("E2")] + ["C10"],
              "kind_free_text": "the same workloads and the bundled reference files re-run under an explicit fault plan (failing/torn I/O calls at every step, truncation at every length, altered stored bytes) with a relaxed golden-answer oracle; crash-tolerant worker processes"},
         ],
         "checks": checks,
